@@ -38,3 +38,19 @@ func VerifNames() []string {
 
 // VerifGet returns the registered entry for a name without any synthesis.
 func VerifGet(name string) *Terminfo { return terminfos[name] }
+
+// VerifBackup copies every registered entry; VerifRestore writes the copies back
+// (a fresh database for the order-independence check).
+func VerifBackup() map[*Terminfo]Terminfo {
+	b := map[*Terminfo]Terminfo{}
+	for _, t := range terminfos {
+		b[t] = *t
+	}
+	return b
+}
+
+func VerifRestore(b map[*Terminfo]Terminfo) {
+	for p, v := range b {
+		*p = v
+	}
+}
